@@ -44,8 +44,8 @@ pass-through `fwd`):
 * `C13_two_fifo`, `C13_two_output_exactly_once`, `C13_two_second_level_exactly_once_partial`,
   `C13_two_input_exactly_once`, `C13_two_first_level_exactly_once_partial` — conservation, the part proved (every link of
   the chain input iterators → first level → input queue → cache / `lock1` → second level → output queue → caller, as an
-  invariant of every reachable configuration): inside EACH queue nothing is duplicated, dropped or reordered (`produced = dequeued ++ q`); every element
-  put into the OUTPUT queue is, exactly once, delivered to the caller / dropped by the caller's final raise or early
+  invariant of every reachable configuration; `Lemmas/Piter2Data.lean`): inside EACH queue nothing is duplicated,
+  dropped or reordered (`produced = dequeued ++ q`); every element put into the OUTPUT queue is, exactly once, delivered to the caller / dropped by the caller's final raise or early
   stop / still queued; what the caller holds ++ dropped ++ queued is exactly what the second-level tasks have put, and
   what a task has put is — in order, without repetition — part of `iterator_fn`'s outputs for the values the task pulled
   from the input queue; the input queue's `produced` is exactly what the first-level tasks have put, which is — in
@@ -441,6 +441,18 @@ example : ∃ c, Reachable (Piter.evalFn .ident none)
   exact ⟨c, reachable_run _ _ _ hr, quiescent_of_enabled_nil hc.1, hc.2⟩
 
 example : PoolOK 2 1 (initF 1 1 1 2 3 none false true [⟨[.val 1], 900, []⟩, ⟨[], 901, []⟩] [800]) := by decide
+
+/-- test (by `decide`): the side condition `gens ≠ []` of `C13_two_no_deadlock` is needed — without an `iterator_fn`
+task (unbounded pool) the first-level task fills the input queue and parks, the caller waits for ever (35 steps) -/
+example : ((run (Piter.evalFn .ident none) (initF 1 1 1 2 0 none false false [⟨[.val 1], 900, []⟩] [])
+      (List.replicate 8 0 ++ List.replicate 27 1)).map fun c =>
+        (enabled (Piter.evalFn .ident none) c == [], c.allDone)) = some (true, false) := by decide +kernel
+
+/-- test (by `decide`): the side condition `inputs ≠ []` is needed — without an input the input queue never ends, the
+`iterator_fn` task parks in `Q1.get_batch` (18 steps) -/
+example : ((run (Piter.evalFn .ident none) (initF 1 1 1 2 0 none false false [] [800])
+      (List.replicate 8 0 ++ List.replicate 10 1)).map fun c =>
+        (enabled (Piter.evalFn .ident none) c == [], c.allDone)) = some (true, false) := by decide +kernel
 
 /-- test (by `decide`): the case that needs the normalising view.  Pass-through `iterator_fn`, `num_steps = 0`: the
 second-level task parks in `Q1.get_batch`, the caller stops both queues (upstream stop), the task wakes up with
